@@ -32,7 +32,7 @@ AREA = "respbody"
 
 BODY_MUTANTS = ["deferred", "freeze_noclose", "getdata_reiter", "mkseq_noencode", "setdata_nolen", "call_buffers",
                 "close_skips_callbacks", "closed_stream_writes"]
-ITER_MUTANTS = ["ci_no_iterable_close", "fw_stops_at_short_block", "app_drops_written", "ci_reverse", "ci_single_ignored",
+ITER_MUTANTS = ["ci_no_iterable_close", "fw_stops_at_short_block", "app_buffered_drops_written", "app_drops_written", "ci_reverse", "ci_single_ignored",
                 "fw_no_close", "app_not_buffered", "app_never_closed"]
 
 
